@@ -278,19 +278,25 @@ def h_open_fail(sym):
     and the object connects afterwards."""
     w = World(sym)
     cf = w.cf
-    mode = sym.choice('mode', 3)
+    mode = sym.choice('mode', 4)
     if mode == 0:
         uri = 'nodriver://0'
     elif mode == 1:
         uri = 'fake://0'
         w.plan.connect_raises = True
+    elif mode == 3:
+        uri = 'fake://0'
+        w.plan.error_in_connect = True       # the link fails before any packet arrives, reported while connect() is running
     else:
         uri = 'fake://0'
         cflib.crtp.CLASSES[:] = []
     w.user(lambda: cf.open_link(uri))
     w.settle()
     assert w.ev == ['connection_requested', 'connection_failed'], w.ev
-    assert cf.link is None
+    if mode != 3:
+        assert cf.link is None
+    else:
+        sym.goal('error-during-connect')
     w.plan.connect_raises = False
     cflib.crtp.CLASSES[:] = [FakeDriver]
     w.user(lambda: cf.open_link('fake://0'))
@@ -371,7 +377,7 @@ HARNESSES = [
              thorough=dict(deviations=2, kinds0=[k], kinds=ALL, max_pos=26, extended=True), timeout=(900, 3600), symbolic=False,
              goals=('reconnected',), tiers=('quick', 'thorough') if k in ('error-from-driver', 'error-in-send', 'close_link', 'ping-first') else ('thorough',),
              note='two deviations; the first kind is fixed per harness instance') for k in ALL] + [
-    Harness('open_fail', h_open_fail, symbolic=False, goals=('failed-then-connected',), timeout=(120, 300)),
+    Harness('open_fail', h_open_fail, symbolic=False, goals=('failed-then-connected', 'error-during-connect'), timeout=(120, 300)),
     Harness('sync', h_sync, quick=dict(kinds=['none', 'error-from-driver', 'error-in-send'], max_pos=24), symbolic=False,
             goals=('opened', 'open-raised', 'error-during-open'), timeout=(600, 1800)),
 ]
